@@ -195,6 +195,30 @@ def judgeLine (a : Acc) (l : String) : Except Verdict Acc := do
                match mf with | .clean => "ok" | .err => "err" | .trap => "crash"]
     if ms != obs then throw (.mismatch s!"udfwrite: model {ms} observed {obs}")
     pure { (a.add (ks.map (fun k => if k.supported then "udfwrite.supported" else "udfwrite.skipped-field"))) with nt := true }
+  | ["jsoncover", tag, field, st] =>
+    if st == "hole" then throw (.mismatch s!"jsoncover: field {field} of typeOf {tag} is read by an unmarshal method but occurs in no base document (coverage hole)")
+    pure (a.add ["jsoncover"])
+  | ["jsoneval", kind, _doc] =>
+    match obs with
+    | ["X", how] => throw (.specfail (if how == "hang" then "terminates" else "process-survives") s!"jsoneval {kind}: {how}")
+    | [r] =>
+      let cs := r.toList
+      if cs.length != 5 then throw (.badop l)
+      if (cs.take 3).contains 'p' then throw (.specfail "returns-task-or-error" s!"jsoneval {kind}: decode/format/compile = {r} (p = panicked)")
+      if (cs.drop 3).contains 'p' then throw (.specfail "keeps-processing-after-bad-point" s!"jsoneval {kind}: evaluating the decoded expression panicked ({r})")
+      pure { (a.add [s!"jsoneval.{kind}.{r}"]) with nt := a.nt || r != "e----" }
+    | _ => throw (.badop l)
+  | ["jsontask", _doc] =>
+    match obs with
+    | ["X", how] => throw (.specfail (if how == "hang" then "terminates" else "process-survives") s!"jsontask: {how}")
+    | [d, st, te, by_] =>
+      if d == "p" || st == "p" then throw (.specfail "returns-task-or-error" s!"jsontask: decode={d} start={st} (p = panicked)")
+      if te != "0" then throw (.specfail "bad-point-does-not-kill-task" "jsontask: the task ended with an error")
+      match by_.splitOn "/" with
+      | [g, t] => if g != t then throw (.specfail "other-tasks-unaffected" s!"jsontask: bystander saw {by_}")
+      | _ => throw (.badop l)
+      pure { (a.add [s!"jsontask.{d}{st}"]) with nt := a.nt || st == "o" }
+    | _ => throw (.badop l)
   | "pbatch" :: cls :: strs =>
     let some cl := parseCls cls | throw (.badop l)
     match obs with
